@@ -141,6 +141,12 @@ func runOneHistory(c *ctx, hc histCfg, hid, nSteps int) {
 		h.base, h.sb = "http://app.example.com", "http://sso.example.com"
 	}
 	h.s.idp.omitRefreshToken = hc.noRT
+	// optional ID-token claims must not change how long a session or its store entry lives: one history in three is answered from an OLD provider session
+	// (auth_time hours ago, also older than the maximum session lifetime)
+	if c.rng.chance(1, 3) {
+		h.s.idp.authTimeAgo = pick(c.rng, []time.Duration{30 * time.Minute, 2 * time.Hour, 26 * time.Hour})
+		c.count("hist:old-auth_time")
+	}
 	defer func() {
 		h.s.close()
 		cookie.ConfigureCookieNamesWithPrefix(cookie.DefaultPrefix)
